@@ -58,6 +58,32 @@ def rotate (conj : K → K) (n : Nat) (U X : Nat → Nat → K) (a d : Nat) : K 
 
 def traceM (n : Nat) (X : Nat → Nat → K) : K := sumRange n fun i => X i i
 
+/-- matrix product of index functions (`einsum("LM,MN->LN")`) -/
+def mulM (n : Nat) (A B : Nat → Nat → K) (i j : Nat) : K := sumRange n fun k => A i k * B k j
+
+/-- `FormulaProduct.nn`: `res = matrices[0]; for mat in matrices[1:]: res = einsum("LM..,MN..->LN..", res, mat)` -/
+def chainM (n : Nat) (M0 : Nat → Nat → K) (rest : List (Nat → Nat → K)) : Nat → Nat → K :=
+  rest.foldl (mulM n) M0
+
+/-- `Matrix_ln.nn`: `matrix[ik][inn][:, inn]` -/
+def subM (inn : List Nat) (X : Nat → Nat → K) (i j : Nat) : K := X (inn.getD i 0) (inn.getD j 0)
+
+/-- `Formula_ln.trace` of a `FormulaProduct` of `Matrix_ln` factors over the inner states `inn` -/
+def productTrace (inn : List Nat) (Ms : List (Nat → Nat → K)) : K :=
+  match Ms.map (subM inn) with
+  | [] => 0
+  | M0 :: rest => traceM inn.length (chainM inn.length M0 rest)
+
+/-- a variant that closes the chain with the LAST factor transposed (`Tr(A·B·Cᵀ)`): not gauge invariant, kept for
+    the counterexample `Props/C04.lean: transposed_last_factor_not_invariant` -/
+def productTraceLastT (inn : List Nat) (Ms : List (Nat → Nat → K)) : K :=
+  match (Ms.map (subM inn)).reverse with
+  | [] => 0
+  | C :: revinit =>
+    match revinit.reverse with
+    | [] => traceM inn.length C
+    | M0 :: mid => traceM inn.length (mulM inn.length (chainM inn.length M0 mid) (fun i j => C j i))
+
 /-- the group (if any) that contains column `j` -/
 def groupOf (groups : List (Nat × Nat)) (j : Nat) : Option (Nat × Nat × Nat) :=
   (groups.zipIdx.find? (fun g => decide (g.1.1 ≤ j) && decide (j < g.1.2))).map (fun g => (g.2, g.1.1, g.1.2))
@@ -117,6 +143,15 @@ def handle : List String → String
       let W : Nat → Nat → Nat → GRat := fun gi i j => mkM c d (off gi + i) j
       showM n n (applyGauge groups W (mkM a b))
     | _, _, _, _, _, _ => "bad-op"
+  -- ptrace inn M1re M1im M2re M2im ... : Re/Im of the trace over `inn` of the product of the factors
+  | "ptrace" :: inn :: ms =>
+    match parseNats? inn, ms.mapM parseRatss? with
+    | some i, some tabs =>
+      let rec pairUp : List (List (List Rat)) → List (Nat → Nat → GRat)
+        | a :: b :: rest => mkM a b :: pairUp rest
+        | _ => []
+      showG (productTrace i (pairUp tabs))
+    | _, _ => "bad-op"
   | _ => "bad-op"
 
 end WB.C04
